@@ -13,7 +13,7 @@ RULE = (
     "cases = (a) PINNs from create_PINN: 1..3 Linear layers of width 1..6 with tanh/sin/softplus/identity, 1..3 outputs, "
     "eq_type in {ODE, statio, nonstatio}, dim_x 1..3, input transform in {none, affine, periodic embedding using an "
     "equation parameter}, output transform in {none, hard boundary factor, scaling by an equation parameter}, "
-    "shared_pinn_outputs given as slices or ints, scalar vs (1,) time for ODE, params given as Params or as the bare "
+    "shared_pinn_outputs given as slices or (possibly negative) ints, scalar vs (1,) time for ODE, params given as Params or as the bare "
     "network parameters when no transform needs eq_params; (b) SPINNs: d 1..3, r 1..4, m 1..3 outputs, batch 1..3 per "
     "axis, statio / nonstatio; (c) HYPERPINNs with 1..3 hyper-parameters of shapes (), (1,), (2,), default or custom "
     "hyper architecture. Oracle: independent numpy forward pass from the weight/bias leaves (W x + b, activation table), "
